@@ -28,13 +28,13 @@ CONSTANTS
   UpdateSpecs <- UpdateSpecsNone
 VIEW View
 INVARIANTS
+  Inv_C13_QueueSound
   Inv_C07_DepositEscrow
   Inv_C07_OwnerTally
   Inv_C13_QueueComplete
 PROPERTIES
   Act_SetupOK
   Act_C07_RequestEscrow_ModF4
-  Act_C13_QueueSound_ModF20
   Act_C13_NoHalt
   Act_C07_Charge_ModF4
   Act_C07_Answer
@@ -45,9 +45,9 @@ PROPERTIES
   Act_C08_OneOutcome
   Act_C08_RespondGuards
   Act_C08_OneShot
-  Act_C08_Schedule_ModF
+  Act_C08_Schedule_ModF21
   Act_C08_Authority
   Act_C08_Callback
   Act_C08_Funds
-  Act_C13_OnceOnTime_ModF20
+  Act_C13_OnceOnTime
 CHECK_DEADLOCK FALSE
